@@ -32,7 +32,7 @@ Fixpoint lookup {A : Type} (d : list (bytes * A)) (n : bytes) : option A :=
   | (k, v) :: r => if beq k n then Some v else lookup r n
   end.
 
-Definition names {A : Type} (d : list (bytes * A)) : list bytes := map fst d.
+Notation names d := (map fst d) (only parsing).
 Definition mem_name (n : bytes) (l : list bytes) : bool := existsb (beq n) l.
 
 (* replace the node of an existing name in place, or append a new entry *)
